@@ -26,6 +26,7 @@ HT = 'io_loop::heartbeat_timers::'
 def run(ctx):
     _run_main6(ctx)
     _round6(ctx)
+    _round8(ctx)
 
 
 def _run_main6(ctx):
@@ -145,3 +146,10 @@ def _round6(ctx):
         HT_ = 'io_loop::heartbeat_timers::HeartbeatTimers::'
         r.eq('heartbeats:writers', sorted(w), sorted(HT_ + n for n in ('start', 'record_rx_activity', 'record_tx_activity', 'fire_rx', 'fire_tx')), None,
              why='the pair of timers is installed by start() and otherwise only ticked (record_*_activity, fire_*): taking or replacing it would end liveness checking')
+
+
+def _round8(ctx):
+    """Rules that are necessary conditions of this property too (found by seeding round 8)."""
+    from rules import arms as A
+    with ctx.rule('R17.7', 'the heartbeat queued on a tx expiry is really queued while the connection is open: push_heartbeat is gated by the seal, not by its negation (shared with C08)', floor=1) as r:
+        A.include(ctx, r, 'c08', 'R08.2', pick=('push_heartbeat:gated',))
